@@ -129,20 +129,10 @@ QuoteTolScaled(pl, o, a, dx, gross) ==
 QuoteNearExact(pl, o, a, dx, gross) ==
   LET xs0 == Norm(pl, pl.res, K6)
       d0 == P!RootFloor(Ann(pl), xs0)
-      tol == QuoteTolScaled(pl, o, a, dx, gross)
-      xo == BAdd(xs0[o], BMul(dx, UnitScaled(pl, o, K6)))
-      ya == BSub(xs0[a], BMul(gross, UnitScaled(pl, a, K6)))
-      up == [xs0 EXCEPT ![o] = xo, ![a] = BAdd(ya, tol)]
-      dn == [xs0 EXCEPT ![o] = xo, ![a] = BSub(ya, tol)]
-  IN /\ P!DBelowRoot(Ann(pl), up, d0)                       \* not more than exact + tol
-     /\ (BLe(ya, tol) \/ P!DAboveRoot(Ann(pl), dn, BAdd(d0, One)))   \* not less than exact - tol
+  IN P!QuoteBracketOK(Ann(pl), xs0, d0, o, a, BMul(dx, UnitScaled(pl, o, K6)), BMul(gross, UnitScaled(pl, a, K6)), QuoteTolScaled(pl, o, a, dx, gross))
 (* C13 without belief price: loss against the pre-trade price within tol. price as a fraction pn/pd of raw units *)
-LossWithin(net, dx, pn, pd, tol, slackUnits) ==
-  \* net >= dx * pn/pd * (1 - tol) - slack
-  BLe(BMul(BMul(BMul(dx, pn), OneMinus(tol)), One), BMul(BMul(BAdd(net, slackUnits), pd), Dec18))
-LossAtLeast(net, dx, pn, pd, tol, slackUnits) ==
-  \* net <= dx * pn/pd * (1 - tol) + slack
-  BLe(BMul(BMul(BSub(net, slackUnits), pd), Dec18), BMul(BMul(dx, pn), OneMinus(tol)))
+LossWithin(net, dx, pn, pd, tol, slackUnits) == P!LossWithin(net, dx, pn, pd, tol, slackUnits)
+LossAtLeast(net, dx, pn, pd, tol, slackUnits) == P!LossAtLeast(net, dx, pn, pd, tol, slackUnits)
 PegNum(pl, o, a) == P!Pow10(pl.dec[a])
 PegDen(pl, o, a) == P!Pow10(pl.dec[o])
 MargNum(pl, o, a) == LET xs == Norm(pl, pl.res, One) IN BMul(P!MarginalNum(Ann(pl), xs, P!RootFloor(Ann(pl), xs), o, a), PegNum(pl, o, a))
@@ -284,10 +274,8 @@ MintExactCp(pl, res0, S0, dep, minted) ==
   pl.kind = "cp" /\ S0 # Z => minted = P!Min(P!CpShare(dep[1], S0, res0[1]), P!CpShare(dep[2], S0, res0[2]))
 FirstDNearExact(pl, res1, S1) ==     \* the integer D used to mint at the first deposit is the new supply
   LET xs == Norm(pl, res1, One) IN P!DBelowRoot(Ann(pl), xs, BSub(S1, Two)) /\ P!DAboveRoot(Ann(pl), xs, BAdd(S1, Two))
-DepositRatioWithin(d, R, t) ==      \* both ratios within tolerance, +- one ulp of the 18-digit fixed point
-  /\ BLe(BMul(BMul(d[1], OneMinus(t)), R[2]), BAdd(BMul(BMul(R[1], Dec18), d[2]), BMul(d[2], R[2])))
-  /\ BLe(BMul(BMul(d[2], OneMinus(t)), R[1]), BAdd(BMul(BMul(R[2], Dec18), d[1]), BMul(d[1], R[1])))
-Proportional(d, R) == \A i, j \in DOMAIN d : BMul(d[i], R[j]) = BMul(d[j], R[i])
+DepositRatioWithin(d, R, t) == P!DepositRatioWithin(d, R, t)
+Proportional(d, R) == P!Proportional(d, R)
 
 (* judgement of a (multi-asset) deposit of `dep` into pool state (res0, S0), minting to `target` *)
 JudgeDepositCore(s, e, p, pl, res0, S0, dep, preT, preSupplyT) ==
